@@ -310,7 +310,8 @@ def run(tier, seed):
                 'of the unit tests (%d seeds) with all single-octet mutations and truncations, as UPDATE body and as the value of 10 '
                 'attribute types; every seed padded/repeated to 4096 octets. Verdict by the deterministic step meter (300 + 60*len). '
                 'distinct_nontrivial = distinct (entry point, input class, outcome kind)' % (len(entry_points()), len(lt), maxlen, len(corpus)),
-        'samples': [{'entry': 'LinkState.unpack', 'hex': '040a00050102030405'}, {'entry': 'Update.parse', 'hex': '00000007d01d0003040a0000'}],
+        'samples': [{'task': [(x.hex() if isinstance(x, bytes) else ([y.hex() if isinstance(y, bytes) else y for y in x][:3] if isinstance(x, (list, tuple)) else x)) for x in t]}
+                    for t in report.pick(tasks, seed, 4)],
         'exhaustive': True, 'violation_keys': summary,
     }
     report.write_evidence(PROP, tier, seed, 'exploration', cov,
